@@ -560,6 +560,8 @@ def drive(prop, tier, base_seed, workers=None):
 
 
 def write_evidence(prop, tier, base_seed, agg, wall, known_lines, replay_paths):
+    if os.path.realpath(os.environ.get("LABSIM_REPO", "/repo")) != "/repo":
+        return  # a run against a scratch tree (sensitivity tests) is not evidence about /repo
     os.makedirs(EVIDENCE_DIR, exist_ok=True)
     distinct = {k: len(v) for k, v in agg["distinct"].items()}
     nontrivial = distinct.get(prop.NONTRIVIAL_MEASURE, 0)
